@@ -146,7 +146,7 @@ package parser
 //@ pred SameStack(a seq[ast.Statement], b seq[ast.Statement]) = len(a) == len(b) && (forall k int :: {a[k]} {b[k]} (0 <= k && k < len(a)) ==> a[k] == b[k])
 // parser state every parse function relies on and re-establishes
 //@ pred PState(p *Parser) = PInv(p) && StackOK(p.breakStack) && StackOK(p.continueStack)
-//@   && p.constants != nil && p.inlineTextsSet != nil && p.inlineTextCounts != nil && p.inlineMovementsSet != nil && p.inlineMovementCounts != nil
+//@   && p.constants != p.inlineMovementsSet && allocated(p.constants) && allocated(p.inlineTextsSet) && allocated(p.inlineTextCounts) && allocated(p.inlineMovementsSet) && allocated(p.inlineMovementCounts)
 //@ pred PSame(p *Parser, l0 *lexer.Lexer, in0 string) = p.l == l0 && p.l.input == in0
 // the hoisting tables and the constant table are the same map objects (their contents may change)
 //@ pred PMaps(p *Parser, a map[string]string, b map[textKey]string, c map[string]int, d map[string]string, e map[string]int) =
@@ -206,6 +206,15 @@ package parser
 //@   loopinv [C18:pstate-inv] PState(p) && PSame(p, old(p.l), old(p.l.input)) && PMaps(p, old(p.constants), old(p.inlineTextsSet), old(p.inlineTextCounts), old(p.inlineMovementsSet), old(p.inlineMovementCounts))
 //@ end
 
+// the parser-state part of the frame contracts, without a modifies clause (the hoisting functions list theirs)
+//@ func PStateOnly
+//@   nobody
+//@   params p
+//@   requires [C18:pstate] PState(p)
+//@   ensures [C18:pstate] PState(p) && PSame(p, old(p.l), old(p.l.input)) && PMaps(p, old(p.constants), old(p.inlineTextsSet), old(p.inlineTextCounts), old(p.inlineMovementsSet), old(p.inlineMovementCounts))
+//@   loopinv [C18:pstate-inv] PState(p) && PSame(p, old(p.l), old(p.l.input)) && PMaps(p, old(p.constants), old(p.inlineTextsSet), old(p.inlineTextCounts), old(p.inlineMovementsSet), old(p.inlineMovementCounts))
+//@ end
+
 //@ func ListParserFn
 //@   nobody
 //@   params p, allowMultiple
@@ -234,21 +243,27 @@ package parser
 
 //@ func (p *Parser) parseTopLevelStatement
 //@   include TopFrame
+//@   requires [C06:tables] TextTableOK(p) && MoveTableOK(p)
+//@   ensures [C06:text-table] TextTableOK(p)
+//@   ensures [C06:move-table] MoveTableOK(p)
 //@   modifies fields(p.constants), fields(p.inlineTextsSet), fields(p.inlineTextCounts), fields(p.inlineMovementsSet), fields(p.inlineMovementCounts), allof(ast.CommandStatement.Args)
 //@   ensures [C20:stack-balanced] result1 == nil ==> (SameStack(p.breakStack, old(p.breakStack)) && SameStack(p.continueStack, old(p.continueStack)))
 //@   loopinv [C20:stack-balanced-inv] SameStack(p.breakStack, old(p.breakStack)) && SameStack(p.continueStack, old(p.continueStack))
 //@ end
 
 //@ func (p *Parser) addImplicitData
-//@   include TopFrame
+//@   include PStateOnly
+//@   requires [C06:tables] TextTableOK(p) && MoveTableOK(p)
+//@   ensures [C06:text-table] TextTableOK(p)
+//@   ensures [C06:move-table] MoveTableOK(p)
 //@   requires [C06:slot] ImpOK(implicitData)
 //@   ensures [C20:stack-balanced] SameStack(p.breakStack, old(p.breakStack)) && SameStack(p.continueStack, old(p.continueStack))
 //@   loopinv [C20:stack-balanced-inv] SameStack(p.breakStack, old(p.breakStack)) && SameStack(p.continueStack, old(p.continueStack))
-//@   modifies fields(p.inlineTextsSet), fields(p.inlineTextCounts), fields(p.inlineMovementsSet), fields(p.inlineMovementCounts), allof(ast.CommandStatement.Args)
+//@   modifies p.inlineTexts, fields(p.inlineTextsSet), fields(p.inlineTextCounts), p.inlineMovements, fields(p.inlineMovementsSet), fields(p.inlineMovementCounts), allof(ast.CommandStatement.Args)
 //@ end
 
 //@ func (p *Parser) addImplicitTexts
-//@   include TopFrame
+//@   include PStateOnly
 //@   requires [C06:text-table] TextTableOK(p)
 //@   ensures [C06:text-table] TextTableOK(p)
 //@   ensures [C06:args-len] forall c *ast.CommandStatement :: {c.Args} len(c.Args) == old(len(c.Args))
@@ -257,7 +272,7 @@ package parser
 //@   requires [C06:slot] forall k int :: {texts[k]} (0 <= k && k < len(texts)) ==> TextSlotOK(texts[k])
 //@   ensures [C20:stack-balanced] SameStack(p.breakStack, old(p.breakStack)) && SameStack(p.continueStack, old(p.continueStack))
 //@   loopinv [C20:stack-balanced-inv] SameStack(p.breakStack, old(p.breakStack)) && SameStack(p.continueStack, old(p.continueStack))
-//@   modifies fields(p.inlineTextsSet), fields(p.inlineTextCounts), fields(p.inlineMovementsSet), fields(p.inlineMovementCounts), allof(ast.CommandStatement.Args)
+//@   modifies p.inlineTexts, fields(p.inlineTextsSet), fields(p.inlineTextCounts), allof(ast.CommandStatement.Args)
 //@   loop 1
 //@     invariant [C06:text-table-inv] TextTableOK(p)
 // one record per turn: its argument slot receives the label registered for its content; a content seen for the first
@@ -275,14 +290,30 @@ package parser
 //@ end
 
 //@ func (p *Parser) addImplicitMovements
-//@   include TopFrame
+//@   include PStateOnly
+//@   requires [C06:move-table] MoveTableOK(p)
+//@   ensures [C06:move-table] MoveTableOK(p)
 //@   ensures [C06:args-len] forall c *ast.CommandStatement :: {c.Args} len(c.Args) == old(len(c.Args))
 //@   loopinv [C06:args-len-inv] forall c *ast.CommandStatement :: {c.Args} len(c.Args) == old(len(c.Args))
 //@   loopinv [C06:slot-inv] forall k int :: {movements[k]} (0 <= k && k < len(movements)) ==> MoveSlotOK(movements[k])
 //@   requires [C06:slot] forall k int :: {movements[k]} (0 <= k && k < len(movements)) ==> MoveSlotOK(movements[k])
 //@   ensures [C20:stack-balanced] SameStack(p.breakStack, old(p.breakStack)) && SameStack(p.continueStack, old(p.continueStack))
 //@   loopinv [C20:stack-balanced-inv] SameStack(p.breakStack, old(p.breakStack)) && SameStack(p.continueStack, old(p.continueStack))
-//@   modifies fields(p.inlineTextsSet), fields(p.inlineTextCounts), fields(p.inlineMovementsSet), fields(p.inlineMovementCounts), allof(ast.CommandStatement.Args)
+//@   modifies p.inlineMovements, fields(p.inlineMovementsSet), fields(p.inlineMovementCounts), allof(ast.CommandStatement.Args)
+//@   loop 1
+//@     invariant [C06:move-table-inv] MoveTableOK(p)
+// one record per turn: the slot receives the label registered for its step list; a list seen for the first time gets
+// the next number of its owning script and exactly one new local movement definition with those steps
+//@     transition [C06:hoist-move] prev(indom(p.inlineMovementsSet, MovKey(movements[$i].movements)))
+//@       ? (p.inlineMovements == prev(p.inlineMovements) && movements[prev($i)].command.Args[movements[prev($i)].argPos] == prev(p.inlineMovementsSet[MovKey(movements[$i].movements)]))
+//@       : (len(p.inlineMovements) == len(prev(p.inlineMovements)) + 1
+//@          && p.inlineMovements[len(prev(p.inlineMovements))].Name.Value == sprintf("%s_Movement_%d", movements[prev($i)].scriptName, prev(indom(p.inlineMovementCounts, movements[$i].scriptName) ? p.inlineMovementCounts[movements[$i].scriptName] : 0))
+//@          && p.inlineMovements[len(prev(p.inlineMovements))].MovementCommands == movements[prev($i)].movements
+//@          && p.inlineMovements[len(prev(p.inlineMovements))].Scope == token.LOCAL
+//@          && p.inlineMovements[len(prev(p.inlineMovements))].Token == prev(movements[$i].command.Token)
+//@          && movements[prev($i)].command.Args[movements[prev($i)].argPos] == p.inlineMovements[len(prev(p.inlineMovements))].Name.Value
+//@          && indom(p.inlineMovementCounts, movements[prev($i)].scriptName)
+//@          && p.inlineMovementCounts[movements[prev($i)].scriptName] == prev(indom(p.inlineMovementCounts, movements[$i].scriptName) ? p.inlineMovementCounts[movements[$i].scriptName] : 0) + 1)
 //@ end
 
 //@ func (p *Parser) parseScriptStatement
@@ -353,7 +384,8 @@ package parser
 //@ end
 
 //@ func (p *Parser) parseTextStatement
-//@   include TopFrame
+//@   include ParseFrame
+//@   modifies p.textStatements
 //@   ensures [C20:stack-balanced] result1 == nil ==> (SameStack(p.breakStack, old(p.breakStack)) && SameStack(p.continueStack, old(p.continueStack)))
 //@   loopinv [C20:stack-balanced-inv] SameStack(p.breakStack, old(p.breakStack)) && SameStack(p.continueStack, old(p.continueStack))
 //@ end
@@ -586,8 +618,8 @@ package parser
 //@ end
 
 //@ func (p *Parser) parseConstant
-//@   include TopFrame
-//@   modifies fields(p.constants), fields(p.inlineTextsSet), fields(p.inlineTextCounts), fields(p.inlineMovementsSet), fields(p.inlineMovementCounts), allof(ast.CommandStatement.Args)
+//@   include ParseFrame
+//@   modifies fields(p.constants)
 //@   ensures [C20:stack-balanced] result0 == nil ==> (SameStack(p.breakStack, old(p.breakStack)) && SameStack(p.continueStack, old(p.continueStack)))
 //@   loopinv [C20:stack-balanced-inv] SameStack(p.breakStack, old(p.breakStack)) && SameStack(p.continueStack, old(p.continueStack))
 //@ end
